@@ -265,6 +265,18 @@ fn compute_hmac<H: HashChain>(key: &[u8], data: &[u8]) -> ArrayVec<[u8; MAX_HASH
     compute_hmac_opad::<H>(&mut hasher, key)
 }
 
+/// Verification hook: the values of this module's private constants as compiled.
+#[cfg(hbs_lms_verif)]
+pub(crate) fn verif_constants() -> [(&'static str, u64); 5] {
+    [
+        ("AUX_DATA_MARKER", AUX_DATA_MARKER as u64),
+        ("NO_AUX_DATA", NO_AUX_DATA as u64),
+        ("AUX_DATA_HASHES", AUX_DATA_HASHES as u64),
+        ("IPAD", IPAD as u64),
+        ("OPAD", OPAD as u64),
+    ]
+}
+
 #[cfg(test)]
 mod tests {
     use crate::hasher::sha256::Sha256_256;
